@@ -132,7 +132,8 @@ theorem skipBR_err_kinds (t : UInt8) (r : Rd) (e : TErr) (h : skipBR t r = .err 
   | depth => exact .inr (.inr (.inl (by decide)))
   | unknownType => exact .inr (.inr (.inr (by decide)))
 
-/-- END TO END over the buffered reader of C04 on a scripted source — EVERY stream (≤ 2^60 bytes),
+/-- END TO END over the buffered reader of C04 on a scripted source — EVERY stream of at most
+    `sizeBound` = 2^40 bytes (the range of `RdOK`, inside C04's request domain),
     EVERY script (any chunking, empty reads, any injected error value at any position), every type
     byte: a failure of BufferReader.Skip is
       * the source's own error — the first error of its script, io.EOF once the script is exhausted —
@@ -186,8 +187,8 @@ theorem skipBR_bytes_exact (b : Bytes) (cap : Nat) (hcap : b.length ≤ cap) (t 
   | error c => rw [hc] at h; exact h
 
 /-- ERROR-EXACT over C04's buffered reader on a LIVE scripted source (`Steady`: every byte of the
-    stream is deliverable before any error, whatever room the reader offers) — every stream ≤ 2^60
-    bytes, every such script (any chunking, empty reads short of the no-progress limit): the same
+    stream is deliverable before any error, whatever room the reader offers) — every stream of at most
+    `sizeBound` = 2^40 bytes (`RdOK`), every such script (any chunking, empty reads short of the no-progress limit): the same
     three-way agreement with the stream classifier. -/
 theorem skipBR_live_exact (S : Bytes) (script : List Resp) (hS : S.length ≤ sizeBound)
     (hst : Steady Facts.maxConsecutiveEmptyReads script S.length 0 = true) (t : UInt8) :
